@@ -274,6 +274,7 @@ def shard(ctx):
     rng = ctx.rng("c16")
     if ctx.mine(0):
         check_tagged(ctx)
+        check_same_names(ctx)
     n = 9 if ctx.quick else 320
     for t in range(n):
         doc0 = gen.gen_doc(rng)
@@ -339,6 +340,52 @@ rule skipped when Resources.b.Properties.Nope exists { Resources.b.Type == "x" }
 """
 
 
+def check_same_names(ctx):
+    """test cases are told apart by position, not by their free-text `name`: two cases of one name are both evaluated, both reported, and
+    an unmet expectation in the later one still makes the run fail - in every rendering and layout"""
+    rules = "rule a {\n    x == 1\n}\nrule b {\n    y exists\n}\n"
+    cases = [{"name": "base", "input": {"x": 1, "y": 1}, "expectations": {"rules": {"a": "PASS", "b": "PASS"}}},
+             {"name": "same name", "input": {"x": 1, "y": 1}, "expectations": {"rules": {"a": "PASS", "b": "PASS"}}},
+             {"name": "same name", "input": {"x": 2}, "expectations": {"rules": {"a": "PASS", "b": "FAIL"}}},        # a is FAIL here: unmet
+             {"input": {"x": 1}, "expectations": {"rules": {"a": "PASS"}}}, {"input": {"x": 1}, "expectations": {"rules": {"a": "PASS"}}}]
+    second = [{"name": "same name", "input": {"x": 1, "y": 2}, "expectations": {"rules": {"b": "PASS"}}}]
+    files = {"t/r.guard": rules, "t/tests/r_tests.json": json.dumps(cases), "t/tests/r_more_tests.yaml": json.dumps(second)}
+    for fmt in ("plain", "json", "yaml", "junit"):
+        for layout, argv in (("files", ["test", "-r", "{S}/t/r.guard", "-t", "{S}/t/tests/r_tests.json"]), ("dir", ["test", "-d", "{S}/t"])):
+            r = ctx.w.run({"k": "cli", "argv": argv + ([] if fmt == "plain" else ["-o", fmt]), "files": files})
+            ctx.res.cases += 1
+            case = {"kind": "samenames", "fmt": fmt, "layout": layout}
+            if r.get("r") not in ("ok", "err") or core.crash_signature(r):
+                ctx.inconclusive("crash")
+                continue
+            want_cases = 5 + (1 if layout == "dir" else 0)
+            ctx.res.counts["same_name_runs"] += 1
+            if r.get("code") != 7:
+                ctx.violation("same-names:%s-%s:exit" % (fmt, layout), "a later test case that shares its name with an earlier one has an unmet expectation: exit %s, expected 7" % r.get("code"), case)
+                continue
+            out = r.get("out", "")
+            n = None
+            if fmt == "json":
+                try:
+                    docs_ = json.loads(out)
+                    n = sum(len(d_.get("test_cases", [])) for d_ in (docs_ if isinstance(docs_, list) else [docs_]))
+                except ValueError:
+                    n = -1
+            elif fmt == "yaml":
+                import yaml
+                try:
+                    docs_ = yaml.safe_load(out)
+                    n = sum(len(d_.get("test_cases", [])) for d_ in (docs_ if isinstance(docs_, list) else [docs_]))
+                except yaml.YAMLError:
+                    n = -1
+            elif fmt == "plain":
+                n = len(re.findall(r"^Test Case #\d+", out, re.M))
+            if n is not None and n != want_cases:
+                ctx.violation("same-names:%s-%s:case-count" % (fmt, layout), "%s test cases reported for %d cases in the tests files" % (n, want_cases), case)
+            else:
+                ctx.res.distinct.add(("same-names", fmt, layout))
+
+
 def check_tagged(ctx):
     """a template written with CloudFormation short-form tags: `test` (serde loader) must evaluate every rule to the status `validate`
     (libyaml loader) assigns on the same text; expectations equal to validate's statuses are all met, in every rendering"""
@@ -372,6 +419,15 @@ def check_tagged(ctx):
 
 
 def replay(case, w):
+    if case.get("kind") == "samenames":
+        res = core.ShardResult()
+        found = []
+
+        class C3(core.Ctx):
+            def violation(self, sig, what, rp):
+                found.append(sig)
+        check_same_names(C3(w, 0, 1, 1, "quick", res, {"prop": "C16"}))
+        return not found, "violations: %s" % sorted(set(found))
     if case.get("kind") == "tagged":
         res = core.ShardResult()
         found = []
